@@ -125,7 +125,7 @@ class TimeTriggerDecorator(TriggerDecorator):
                 if time_next is None:
                     _LOGGER.debug("trigger %s finished", self.name)
                     if isinstance(self.dm, WaitUntilDecoratorManager):
-                        await self.dispatch(DispatchData({"trigger_type": "none"}))
+                        await self.dm.trigger_exhausted(self)
                     break
 
                 # replace with homeassistant.helpers.event.async_track_point_in_utc_time?
